@@ -135,4 +135,6 @@ struct C09 : Harness {
         return "";
     }
 };
+#ifndef SKV_NO_MAIN
 int main(int argc, char **argv) { C09 h; return skv_main(argc, argv, h); }
+#endif
